@@ -1774,7 +1774,13 @@ pub fn c16(g: &mut Gen) {
                 ks: (0..2).map(|_| weights(g, &Shape::Triple(2, 1, 1), 0.9)).collect() }),
             Build::Layer(dense_spec(g, &cfg, 12, 2, "tanh", true)), Build::Connect(0, 1)],
             skipacc: acc.to_string(), loopacc: "mean".into(), opt: None, obj: "mse".into(), clamp: None };
-        for (ni, net) in [narrow_to_wide, wide_to_narrow].iter().enumerate() {
+        // the same channel count on both sides, only height and width exchanged (1x2x4 into 1x4x2)
+        let same_channels = NetSpec { input: Shape::Triple(1, 2, 4), builds: vec![
+            Build::Layer(InnerSpec::Conv { filters: 1, act: "tanh".into(), k: (1, 3), s: (1, 1), p: (1, 0), d: (1, 1), dropout: None, ks: vec![weights(g, &Shape::Triple(1, 1, 3), 0.4)] }),
+            Build::Layer(InnerSpec::Conv { filters: 1, act: "linear".into(), k: (1, 1), s: (1, 1), p: (0, 0), d: (1, 1), dropout: None, ks: vec![weights(g, &Shape::Triple(1, 1, 1), 0.9)] }),
+            Build::Layer(dense_spec(g, &cfg, 8, 2, "tanh", true)), Build::Connect(0, 1)],
+            skipacc: acc.to_string(), loopacc: "mean".into(), opt: None, obj: "mse".into(), clamp: None };
+        for (ni, net) in [narrow_to_wide, wide_to_narrow, same_channels].iter().enumerate() {
             let x = input_for(g, &net.input);
             g.push(format!("net {} predict {}", net.token(), qt(&x)), Tol::Tight, &format!("spatial-rearranged{}/{}", ni, acc), true);
             if *acc == "add" {
